@@ -394,7 +394,16 @@ class Run:
             exp[sb.cache] = ('cache',)
         allowed_extra = set()
         if not committed and prev is not None:
+            # latitude stated in C02: directories the previous committed
+            # build recorded as created may reappear empty - together with
+            # the parents needed to hold them
             allowed_extra = set(prev.created_dirs)
+            for d in list(allowed_extra):
+                if d in post:
+                    q = os.path.dirname(d)
+                    while q.startswith(sb.w + '/'):
+                        allowed_extra.add(q)
+                        q = os.path.dirname(q)
         V = lambda props, key, detail: Violation(  # noqa: E731
             self.props_ctx(ctx, props), 'O-tree', key, detail, i)
         # foreign files first (C03): bytes, mtime, inode unchanged
